@@ -22,14 +22,15 @@ import (
 // here by independent encoders, compared byte for byte with the reply on the wire).
 type optionsSc struct {
 	baseScenario
-	v6       bool
-	plugins  map[string][]string // configured plugin -> args
-	order    []string
-	hasRange bool
-	rangeN   int
-	c4       []*Client4
-	c6       []*Client6
-	sleep    time.Duration
+	v6         bool
+	plugins    map[string][]string // configured plugin -> args
+	order      []string
+	hasRange   bool
+	rangeLease string
+	rangeN     int
+	c4         []*Client4
+	c6         []*Client6
+	sleep      time.Duration
 }
 
 func init() { registerScenario("options", func() scenario { return &optionsSc{} }) }
@@ -102,7 +103,10 @@ func (s *optionsSc) Plan(w *World) {
 		if t.Draw(3) != 0 {
 			s.hasRange = true
 			s.rangeN = []int{2, 3, 40}[t.Pick(3)]
-			add("range", filepath.Join(w.Dir, "opt.sqlite3"), "10.30.0.1", fmt.Sprintf("10.30.0.%d", s.rangeN), "600s")
+			// the lease time range puts into the reply (rounded to whole seconds), zero and sub-second ones included:
+			// "already set" is about the option being there, not about its value
+			s.rangeLease = []string{"600s", "600s", "90s", "1s", "0s", "400ms", "1500ms"}[t.Pick(7)]
+			add("range", filepath.Join(w.Dir, "opt.sqlite3"), "10.30.0.1", fmt.Sprintf("10.30.0.%d", s.rangeN), s.rangeLease)
 		}
 		if _, ok := s.plugins["lease_time"]; !ok && t.Draw(2) == 1 {
 			add("lease_time", []string{"60s", "1h", "90s"}[t.Pick(3)])
@@ -158,11 +162,12 @@ func (s *optionsSc) Plan(w *World) {
 }
 
 type optMeta struct {
-	hasPRL  bool
-	prl     map[int]bool
-	sent116 bool
-	oro     map[int]bool
-	v6      bool
+	hasPRL   bool
+	emptyPRL bool // option 55 present with length 0: "asks for nothing" or "no list" - both readings are accepted for dns/mtu/nbp
+	prl      map[int]bool
+	sent116  bool
+	oro      map[int]bool
+	v6       bool
 }
 
 func (s *optionsSc) one(w *World) {
@@ -210,9 +215,17 @@ func (s *optionsSc) one(w *World) {
 				meta.prl[int(code)] = true
 			}
 		}
-		if len(l) == 0 {
-			// a zero-length option 55 is not generated (RFC 2132 requires at least one code; the codec reads it as "no list")
+		if t.Draw(8) == 0 {
+			l = nil
+			meta.prl = map[int]bool{}
+		} else if len(l) == 0 {
 			l = append(l, dhcpv4.GenericOptionCode(43))
+		}
+		if len(l) == 0 {
+			// a zero-length option 55 (RFC 2132 wants at least one code; clients send it all the same): it lists nothing, so
+			// what must be listed explicitly (108) is not; whether it counts as "absent" for dns/mtu/nbp is left open
+			meta.emptyPRL = true
+			w.Probe("options.v4.zero_length_request_list")
 		}
 		m.UpdateOption(dhcpv4.OptParameterRequestList(l...))
 	}
@@ -389,12 +402,16 @@ func (s *optionsSc) OnReply(w *World, dg *DG, r *Reply) {
 		expect("router", 3, true, encIPs4(a), "routers")
 	}
 	if a, ok := s.plugins["dns"]; ok {
-		expect("dns", 6, wants(6), encIPs4(a), "DNS servers")
+		if !meta.emptyPRL {
+			expect("dns", 6, wants(6), encIPs4(a), "DNS servers")
+		}
 	}
 	if a, ok := s.plugins["mtu"]; ok {
 		var v int
 		fmt.Sscanf(a[0], "%d", &v)
-		expect("mtu", 26, wants(26), be16(uint16(v)), "interface MTU")
+		if !meta.emptyPRL {
+			expect("mtu", 26, wants(26), be16(uint16(v)), "interface MTU")
+		}
 	}
 	if a, ok := s.plugins["staticroute"]; ok {
 		expect("staticroute", 121, true, encRoutes(a), "classless static routes")
@@ -420,11 +437,15 @@ func (s *optionsSc) OnReply(w *World, dg *DG, r *Reply) {
 			want67 = []byte(u.Path)
 		}
 		if want66 != nil {
-			expect("nbp", 66, wants(66), want66, "TFTP server name")
+			if !meta.emptyPRL {
+				expect("nbp", 66, wants(66), want66, "TFTP server name")
+			}
 		} else if _, has := rep.Options[66]; has {
 			bad("unrequested/nbp", "TFTP server name (option 66) was sent but the boot URL %s has no TFTP server", a[0])
 		}
-		expect("nbp", 67, wants(67), want67, "boot file name")
+		if !meta.emptyPRL {
+			expect("nbp", 67, wants(67), want67, "boot file name")
+		}
 	}
 	// lease time: from range when range assigned an address, else from lease_time; lease_time never overrides
 	if a, ok := s.plugins["lease_time"]; ok && ran["lease_time"] {
@@ -433,7 +454,7 @@ func (s *optionsSc) OnReply(w *World, dg *DG, r *Reply) {
 		rangeRan := ran["range"]
 		want := be32(uint32(parseDur(a[0]) / time.Second))
 		if rangeRan {
-			want = be32(600)
+			want = be32(uint32(parseDur(s.rangeLease).Round(time.Second) / time.Second))
 		}
 		if !bytes.Equal(lt, want) {
 			bad("value/lease_time", "lease time (option 51) is % x, expected % x (lease_time %v, range assigned an address: %v)", lt, want, a, rangeRan)
